@@ -199,4 +199,5 @@ Definition mismatches_spec (cs : list case) : list N := bad_idx check_spec 0%N c
 Definition cfg0 (tag : str) (orc : oracles) : cfg :=
   {| c_tag := tag; c_typed := []; c_unscoped := None; c_local := []; c_global := []; c_orc := orc |}.
 Definition FI (n : str) (tags : list (str * str)) (t : bool) : finfo := {| f_name := n; f_tags := tags; f_time := t |}.
-Definition SI (n t : str) : sinfo := {| s_name := n; s_tstr := t |}.
+Definition SI (n t : str) : sinfo := {| s_name := n; s_tstr := t; s_id := t |}.
+Definition SI3 (n t i : str) : sinfo := {| s_name := n; s_tstr := t; s_id := i |}.
